@@ -249,7 +249,7 @@ func (p *Policy) sanitize(r io.Reader, w io.Writer) error {
 		case html.CommentToken:
 
 			// Comments are ignored by default
-			if p.allowComments {
+			if p.allowComments && !skipElementContent {
 				// But if allowed then write the comment out as-is
 				if _, err := buff.WriteString(token.String()); err != nil {
 					return err
